@@ -140,7 +140,7 @@ def _env_json(env):
     return out
 
 
-def run_contract(qualname, scenario_index, tier, seed, falsify_n):
+def run_contract(qualname, scenario_index, tier, seed, falsify_n, deadline=None):
     """worker entry: one contract scenario. Returns a JSON-able dict."""
     t0 = time.time()
     load_contracts()
@@ -202,7 +202,7 @@ def run_contract(qualname, scenario_index, tier, seed, falsify_n):
     except Exception as e:
         out["crash"] = traceback.format_exc()[-3000:]
     # discharge
-    H.discharge(obls, timeout_ms=20000 if tier == "quick" else 60000, retry=(tier == "retry"))
+    H.discharge(obls, timeout_ms={"quick": 20000, "retry": 30000}.get(tier, 60000), retry=(tier == "retry"), deadline=deadline)
     # falsification / replay of what is not proved (on the real code with real libraries)
     rng = random.Random(seed)
     need = [ob for ob in obls if ob.status != "proved"]
@@ -262,14 +262,19 @@ def run_property(prop, tier="quick", seed=0, jobs=None, only=None, include=()):
                                     "falsifier": {"runs": 0, "checked": 0, "failures": []}})
     # an `unknown` under load is usually a timeout: retry those scenarios alone, one at a time,
     # with a three-fold budget before anything is reported (verdicts must not flip with busy cores)
+    retried = 0
+    retry_deadline = time.time() + 240
     for i, r in enumerate(results):
+        if retried >= 4 or time.time() > retry_deadline:
+            break  # bound the cost: a tree on which many claimed clauses time out is reported as it is
         if any(o["status"] == "unknown" for o in r.get("obligations", [])) and not r.get("crash"):
             q = r["contract"]
             k = next((j for j, sc in enumerate(contracts[q].scenarios) if sc == r["scenario"] or
                       json.dumps(sc, default=str) == json.dumps(r["scenario"], default=str)), None)
             if k is None:
                 continue
-            r2 = run_contract(q, k, "retry", seed + 17 * k, 0)
+            retried += 1
+            r2 = run_contract(q, k, "retry", seed + 17 * k, 0, deadline=retry_deadline)
             if sum(o["status"] == "proved" for o in r2.get("obligations", [])) >= sum(
                     o["status"] == "proved" for o in r.get("obligations", [])):
                 r2["falsifier"] = r["falsifier"]
